@@ -22,8 +22,17 @@ pub struct Line {
 }
 
 impl Line {
+    /// every third line of the menu is written with lower-case hex digits, extra blanks and a
+    /// trailing comment that names another class (comments are not part of the definition)
     fn text(&self) -> String {
-        if self.lo == self.hi {
+        let decorated = (self.lo + 2 * self.hi + self.classes.len() as u32) % 3 == 0;
+        if decorated {
+            if self.lo == self.hi {
+                format!("0x{:04x}   {}  # HIRAGANA 0x0000..0xFFFF", self.lo, self.classes.join("  "))
+            } else {
+                format!("0x{:04x}..0x{:04x}   {}  # HIRAGANA", self.lo, self.hi, self.classes.join("  "))
+            }
+        } else if self.lo == self.hi {
             format!("0x{:04X} {}", self.lo, self.classes.join(" "))
         } else {
             format!("0x{:04X}..0x{:04X} {}", self.lo, self.hi, self.classes.join(" "))
@@ -39,7 +48,7 @@ pub struct DefSpace {
 }
 
 fn file_text(menu: &[Line], s: &[u16]) -> String {
-    let mut t = String::from("DEFAULT 0 1 0\n");
+    let mut t = String::from("# character definition under test\n\nDEFAULT 0 1 0\n");
     for &i in s {
         t.push_str(&menu[i as usize].text());
         t.push('\n');
